@@ -28,7 +28,7 @@ STREAM_ID = 1
 class H2CProtocolRequiredError(Exception):
     def __init__(self, data: bytes, request: h11.Request) -> None:
         settings = ""
-        headers = [(b":method", request.method), (b":path", request.target)]
+        headers = [(b":method", request.method), (b":path", _origin_form(request.target))]
         for name, value in request.headers:
             if name.lower() == b"http2-settings":
                 settings = value.decode("latin1")
